@@ -940,7 +940,9 @@ func c12Body(tier string) func(x *engine.X) {
 		depth = 4
 	}
 	return func(x *engine.X) {
-		switch x.Pick(4, "family") {
+		switch x.Pick(5, "family") {
+		case 4:
+			c12Stale(x)
 		case 0:
 			c12Boundary(x, tier)
 		case 1:
